@@ -14,7 +14,7 @@ A unit template (contracts/<unit>.rs.in) is ordinary Rust/Verus text with direct
   //@ end
 
 Signature and body are copied verbatim from the working tree, then the documented rewrite rules
-(R1 err-text, R2 attributes/visibility, R6 let-chains, R7 named return, R8 Self::Item expansion, R9 `|_|` closure parameter named) are applied by pattern and
+(R1 err-text, R2 attributes/visibility, R6 let-chains, R7 named return, R8 Self::Item expansion, R9 `|_|` closure parameter named, R13 closure contract) are applied by pattern and
 counted.  Everything the template adds is ghost (requires/ensures/invariant/decreases/proof).
 A directive whose anchor cannot be found raises AnchorError => the unit is 'undecided'.
 """
@@ -256,7 +256,39 @@ def loop_headers(body_m):
     return res
 
 
+def apply_closures(body, sections, counts):
+    for kind, arg, _t in sections:
+        if kind != "closure":
+            continue
+        k, rx, params, ret, spec = arg
+        m = mask(body)
+        hits = [h for h in re.finditer(rx, body) if m[h.start()] == "|"]
+        if len(hits) < k:
+            raise AnchorError(f"closure anchor /{rx}/ #{k} not found ({len(hits)} matches)")
+        h = hits[k - 1]
+        # closure = |params| body-expression, the body ends at the unmatched closing bracket / comma
+        bar2 = m.index("|", h.start() + 1)
+        depth, e = 0, bar2 + 1
+        while e < len(m):
+            ch = m[e]
+            if ch in "([{":
+                depth += 1
+            elif ch in ")]}":
+                if depth == 0:
+                    break
+                depth -= 1
+            elif ch == "," and depth == 0:
+                break
+            e += 1
+        expr = body[bar2 + 1:e].strip()
+        new = f"|{params}| -> ({ret}) {spec} {{ {expr} }}"
+        body = body[:h.start()] + new + body[e:]
+        counts["R13"] = counts.get("R13", 0) + 1
+    return body
+
+
 def splice(body, sections):
+    sections = [x for x in sections if x[0] != "closure"]
     m = mask(body)
     inserts = []  # (offset, text)
     loops = None
@@ -390,7 +422,7 @@ def build_unit(template, repo, out_path, contracts_dir=None, vacuity=False):
             if i >= len(lines):
                 raise ValueError(f"unterminated //@ fn {name}")
             sl = lines[i]
-            sm = re.match(r"\s*//@\s*(spec|loop|iter|entry|after|before|end)\b\s*(.*)$", sl)
+            sm = re.match(r"\s*//@\s*(spec|loop|iter|closure|entry|after|before|end)\b\s*(.*)$", sl)
             if sm:
                 if cur:
                     sections.append((cur[0], cur[1], "\n".join(cur[2])))
@@ -406,6 +438,15 @@ def build_unit(template, repo, out_path, contracts_dir=None, vacuity=False):
                     cur = [k, (int(am.group(1)), am.group(2)), []]
                 elif k == "loop":
                     cur = [k, rest, []]
+                elif k == "closure":
+                    # `//@ closure <k> /regex matching `|params|`/ | <typed params> | <ret name: type> | <ghost spec>`
+                    # R13: the k-th closure whose parameter list matches gets its parameters typed, its result
+                    # named and a ghost contract; the body expression is kept verbatim (wrapped in braces)
+                    cm = re.match(r"(\d+)\s+/(.*?)/\s*\|(.*?)\|(.*?)\|(.*)$", rest)
+                    if not cm:
+                        raise ValueError(f"bad closure directive: {sl}")
+                    sections.append(("closure", (int(cm.group(1)), cm.group(2), cm.group(3).strip(), cm.group(4).strip(), cm.group(5).strip()), ""))
+                    cur = None
                 elif k == "iter":
                     # `//@ iter <n> <name>`: name the ghost iterator of the n-th loop (a `for`): ghost only
                     n_, name_ = rest.split()
@@ -476,6 +517,8 @@ def build_unit(template, repo, out_path, contracts_dir=None, vacuity=False):
         if vacuity and body != ";":
             rest = [("entry", None, "proof { assert(false); } /*@ VACUITY." + (opts.get("as") or name) + " */")] + rest
         if body != ";":
+            body = apply_closures(body, rest, local)
+            counts["R13"] = counts.get("R13", 0) + local.get("R13", 0) if local.get("R13") else counts.get("R13", 0)
             body = splice(body, rest)
         l0 = src.count("\n", 0, fn_pos) + 1
         l1 = src.count("\n", 0, cb) + 1
